@@ -209,6 +209,12 @@ impl From<&GrammarMessageComponent> for MessageComponent {
 #[derive(Debug)]
 struct SliceFileContentsConverter {
     converted_contents: Vec<Symbol>,
+
+    /// Maps the anonymous types we've already converted (identified by their addresses) to their indexes in
+    /// [Self::converted_contents]. Type aliases are erased, so every use of an alias of an anonymous type refers to the
+    /// same anonymous type, and is given the same numeric [TypeId]. Converting the type again for each use would
+    /// double the number of symbols with every link of alias chains like `typealias T2 = Result<T1, T1>`.
+    converted_anonymous_types: std::collections::HashMap<*const (), usize>,
 }
 
 impl SliceFileContentsConverter {
@@ -222,7 +228,8 @@ impl SliceFileContentsConverter {
     fn convert(contents: &[GrammarDefinition]) -> Vec<Symbol> {
         // Create a new converter.
         let mut converter = SliceFileContentsConverter {
-            converted_contents: Vec::new()
+            converted_contents: Vec::new(),
+            converted_anonymous_types: std::collections::HashMap::new(),
         };
 
         // Iterate through the provided file's contents, and convert each of it's top-level definitions.
@@ -387,26 +394,30 @@ impl SliceFileContentsConverter {
     /// 2) Add these directly to [Self::converted_contents] (so these types appear in the contents before their users)
     /// 3) Return its index in [Self::converted_contents] as a numeric TypeId.
     fn get_type_id_for(&mut self, type_ref: &GrammarTypeRef) -> TypeId {
-        match type_ref.concrete_type() {
-            GrammarTypes::Struct(v) => v.module_scoped_identifier(),
-            GrammarTypes::Enum(v) => v.module_scoped_identifier(),
-            GrammarTypes::CustomType(v) => v.module_scoped_identifier(),
-            GrammarTypes::Primitive(v) => v.type_string(),
-            GrammarTypes::ResultType(v) => {
-                let converted_symbol = Symbol::ResultType(self.convert_result_type(v));
-                self.converted_contents.push(converted_symbol);
-                (self.converted_contents.len() - 1).to_string()
-            }
-            GrammarTypes::Sequence(v) => {
-                let converted_symbol = Symbol::SequenceType(self.convert_sequence(v));
-                self.converted_contents.push(converted_symbol);
-                (self.converted_contents.len() - 1).to_string()
-            }
-            GrammarTypes::Dictionary(v) => {
-                let converted_symbol = Symbol::DictionaryType(self.convert_dictionary(v));
-                self.converted_contents.push(converted_symbol);
-                (self.converted_contents.len() - 1).to_string()
-            }
+        let address = match type_ref.concrete_type() {
+            GrammarTypes::Struct(v) => return v.module_scoped_identifier(),
+            GrammarTypes::Enum(v) => return v.module_scoped_identifier(),
+            GrammarTypes::CustomType(v) => return v.module_scoped_identifier(),
+            GrammarTypes::Primitive(v) => return v.type_string(),
+            GrammarTypes::ResultType(v) => v as *const GrammarResultType as *const (),
+            GrammarTypes::Sequence(v) => v as *const GrammarSequence as *const (),
+            GrammarTypes::Dictionary(v) => v as *const GrammarDictionary as *const (),
+        };
+
+        // If we've already converted this anonymous type (for another use of the same type alias), reuse its id.
+        if let Some(index) = self.converted_anonymous_types.get(&address) {
+            return index.to_string();
         }
+
+        let converted_symbol = match type_ref.concrete_type() {
+            GrammarTypes::ResultType(v) => Symbol::ResultType(self.convert_result_type(v)),
+            GrammarTypes::Sequence(v) => Symbol::SequenceType(self.convert_sequence(v)),
+            GrammarTypes::Dictionary(v) => Symbol::DictionaryType(self.convert_dictionary(v)),
+            _ => unreachable!("only anonymous types reach this point"),
+        };
+        self.converted_contents.push(converted_symbol);
+        let index = self.converted_contents.len() - 1;
+        self.converted_anonymous_types.insert(address, index);
+        index.to_string()
     }
 }
